@@ -20,7 +20,15 @@ const NormKinds = 4
 func NormFn(kind int) func(string, int) float32 {
 	switch kind {
 	case 0: // the bit pattern the repo's own tests use (subnormal floats)
-		return func(_ string, l int) float32 { return math.Float32frombits(uint32(l + 1)) }
+		return func(_ string, l int) float32 {
+			// kept strictly positive and finite for any length (sign and top
+			// exponent bit cleared; never the zero pattern)
+			b := uint32(l+1) & 0x3fffffff
+			if b == 0 {
+				b = 1
+			}
+			return math.Float32frombits(b)
+		}
 	case 1:
 		return func(_ string, l int) float32 { return float32(1 / math.Sqrt(float64(l+1))) }
 	case 2:
